@@ -726,16 +726,30 @@ IDX = "std::ops::Index"
 
 
 def _elem_comparisons(m):
-    """[(true-target block, new-index term, old-index term, cmp block)] for `new[i] == old[j]` switches of a body
-    (either operand order; `!=` contributes its false edge)."""
+    """[(true-target block, [(seq term, index term) x2], switch block)] for every switch decided by `new[i] == old[j]`
+    (either operand order; `!=` contributes its false edge).  The result may first be stored in a local or in a tuple
+    that is matched later (`let same = new[j] == old[i]; match (same, other) { (true, _) => ..`)."""
     out = []
-    for bb, t in m.calls():
-        c = m.callee(t) or {}
-        if c.get("trait") != PEQ or c.get("method") not in ("eq", "ne") or len(t["args"]) != 2 or t.get("target") is None:
+    for sb, blk in enumerate(m.blocks):
+        sw = blk["term"]
+        if sw["k"] != "switch" or sw.get("discr", {}).get("k") not in ("copy", "move"):
+            continue
+        if sw["values"] not in (["0"], [0], ["1"], [1]):
+            continue
+        cond = G.strip(m.expand(m.resolve_operand(sw["discr"]), depth=3))
+        neg = False
+        for _ in range(3):
+            if isinstance(cond, tuple) and cond and cond[0] == "unop" and cond[1] == "Not":
+                cond = G.strip(cond[2])
+                neg = not neg
+        if not (isinstance(cond, tuple) and cond and cond[0] == "call" and len(cond) > 3):
+            continue
+        c = cond[3] or {}
+        if c.get("trait") != PEQ or c.get("method") not in ("eq", "ne") or len(cond[2]) != 2:
             continue
         idxs = []
-        for a in t["args"]:
-            term = G.strip(m.resolve_operand(a))
+        for a in cond[2]:
+            term = G.strip(a)
             if isinstance(term, tuple) and term and term[0] == "call" and len(term) > 3 and (term[3] or {}).get("trait") == IDX and len(term[2]) == 2:
                 idxs.append((G.strip(term[2][0]), term[2][1]))
             else:
@@ -743,17 +757,13 @@ def _elem_comparisons(m):
                 break
         if not idxs:
             continue
-        # the switch on the result
-        tb = t["target"]
-        sw = m.blocks[tb]["term"]
-        if sw["k"] != "switch" or sw.get("discr", {}).get("k") not in ("copy", "move") or sw["discr"]["p"]["l"] != t["dest"]["l"]:
-            continue
-        if sw["values"] != ["0"] and sw["values"] != [0]:
-            continue
-        false_t, true_t = sw["targets"][0], sw["otherwise"]
-        if c["method"] == "ne":
+        if sw["values"] in (["0"], [0]):
+            false_t, true_t = sw["targets"][0], sw["otherwise"]
+        else:
+            true_t, false_t = sw["targets"][0], sw["otherwise"]
+        if (c["method"] == "ne") != neg:
             false_t, true_t = true_t, false_t
-        out.append((true_t, idxs, bb))
+        out.append((true_t, idxs, sb))
     return out
 
 
@@ -764,137 +774,217 @@ def _dominated_by_edge(m, target, pred_block, b):
 
 def rule_E10(prog):
     r = RuleResult("E10", "equal segments are backed by element comparisons: the length of every `equal` call of the three "
-                          "algorithms is (a) the result of common_prefix_len / common_suffix_len, (b) the literal 1 under a "
-                          "`new[j] == old[i]` test of exactly the reported positions, (c) `cursor - snapshot` where the cursor "
-                          "only advanced by 1, in lockstep with the other side's cursor, under `new[new_cursor] == old[old_cursor]`, "
-                          "or (d) a value a dominating `==` test equates with one of these; anything else reports items equal "
-                          "that nobody compared")
+                          "algorithms is (a) the result of common_prefix_len / common_suffix_len (also through a private helper "
+                          "that returns it), (b) the literal 1 under a `new[j] == old[i]` test of exactly the reported positions, "
+                          "(c) `cursor - snapshot` where the cursor only advanced by 1, in lockstep with the other side's cursor, "
+                          "under `new[new_cursor] == old[old_cursor]`, (d) a value a dominating `==` test equates with one of "
+                          "these, or (e) a parameter of a private helper for which every call site passes such a value; anything "
+                          "else reports items equal that nobody compared")
     PRE, SUF = "utils::common_prefix_len", "utils::common_suffix_len"
+    by_path = {}
+    for f in prog.user_fns():
+        by_path.setdefault(f.path, f)
+    cmps_cache = {}
+
+    def cmps_of(fnx):
+        if fnx.path not in cmps_cache:
+            cmps_cache[fnx.path] = _elem_comparisons(fnx.mir)
+        return cmps_cache[fnx.path]
+
+    def callee_fn(term):
+        """the crate function a ('call', path, args, callee, bb) term calls, if it has a body"""
+        if not (isinstance(term, tuple) and term and term[0] == "call" and len(term) > 3):
+            return None
+        cal = term[3] or {}
+        g = by_path.get(cal.get("path") or term[1])
+        return g if g is not None and g.mir else None
+
+    def returned(g, comp):
+        """terms a crate function returns (component `comp` of a returned tuple, or the value itself)"""
+        gm = g.mir
+        out = []
+        for bi, b in enumerate(gm.blocks):
+            for s_ in b["stmts"]:
+                if s_["k"] == "assign" and s_["p"]["l"] == 0 and not s_["p"]["proj"]:
+                    t_ = gm.resolve_rvalue(s_["rv"])
+                    if comp is not None:
+                        ts = G.strip(gm.expand(t_, depth=3))
+                        if isinstance(ts, tuple) and ts[0] == "aggregate" and comp in ts[2]:
+                            out.append(ts[2][comp])
+                        else:
+                            out.append(("field", t_, comp))
+                    else:
+                        out.append(t_)
+            tt = b["term"]
+            if tt["k"] == "call" and tt["dest"]["l"] == 0 and not tt["dest"]["proj"]:
+                cal = gm.callee(tt)
+                t_ = ("call", cal["path"] if cal else "?", [gm.resolve_operand(a) for a in tt["args"]], cal, bi)
+                out.append(t_ if comp is None else ("field", t_, comp))
+        return out
+
+    def is_affix(fnx, term, depth=0):
+        m = fnx.mir
+        e = G.strip(m.expand(term, depth=4))
+        if isinstance(e, tuple) and e and e[0] == "call" and isinstance(e[1], str) and e[1].endswith((PRE, SUF)):
+            return True
+        if depth >= 2:
+            return False
+        comp = None
+        c = e
+        if isinstance(e, tuple) and e and e[0] == "field" and isinstance(e[2], str) and e[2].isdigit():
+            comp, c = e[2], G.strip(e[1])
+        g = callee_fn(c)
+        if g is None or g is fnx:
+            return False
+        rets = returned(g, comp)
+        return bool(rets) and all(is_affix(g, t_, depth + 1) for t_ in rets)
+
+    def place_writes(m, key):
+        res = []
+        for bi, b in enumerate(m.blocks):
+            for s_ in b["stmts"]:
+                if s_["k"] == "assign" and (s_["p"]["proj"] or m.local_name(s_["p"]["l"]) is not None) and \
+                        (m.local_name(s_["p"]["l"]) is not None or s_["p"]["l"] <= m.arg_count) and \
+                        term_str(G.strip(m.resolve_place(s_["p"]))) == key:
+                    res.append((bi, s_))
+        return res
+
+    def param_index(m, op):
+        t_ = G.strip(m.resolve_operand(op)) if op is not None else None
+        if isinstance(t_, tuple) and t_ and t_[0] == "local" and isinstance(t_[2], int) and 1 <= t_[2] <= m.arg_count \
+                and not [d for d in m.defs().get(t_[2], [])]:
+            return t_[2]
+        return None
+
+    def classify(fnx, bb, Lop, Oop, Nop, depth=0):
+        """why the length operand Lop of an `equal` at block bb of fnx is backed, or None"""
+        m = fnx.mir
+        cmps = cmps_of(fnx)
+        L = m.resolve_operand(Lop)
+        Ls = G.strip(L)
+        opos = m.expand(m.resolve_operand(Oop), depth=3) if Oop is not None else None
+        npos = m.expand(m.resolve_operand(Nop), depth=3) if Nop is not None else None
+        # (a)
+        if is_affix(fnx, L):
+            return "length is a common prefix/suffix length"
+        # (b)
+        if isinstance(Ls, tuple) and Ls[0] == "const" and Ls[1] == 1:
+            if opos is None or npos is None:
+                return None
+            for true_t, idxs, cb in cmps:
+                if not _dominated_by_edge(m, true_t, cb, bb):
+                    continue
+                forms = [norm(lin(m, m.expand(ix, depth=3))) for _, ix in idxs]
+                if sorted(map(_fmt, forms)) == sorted(map(_fmt, [norm(lin(m, opos)), norm(lin(m, npos))])):
+                    return "one item under `new[j] == old[i]` of the reported positions"
+            return None
+        d = norm(lin(m, L))
+        posk = [k for k, v in d.items() if v == 1]
+        negk = [k for k, v in d.items() if v == -1]
+        # (c) cursor - snapshot
+        if len(d) == 2 and len(posk) == 1 and len(negk) == 1 and Oop is not None and Nop is not None:
+            snap = [l for l, decl in enumerate(m.locals) if decl.get("name") and term_str(("local", decl["name"], l)) == negk[0] and m.single_def(l)]
+            ok_c = False
+            if snap:
+                S = snap[0]
+                sd = m.single_def(S)
+                src = term_str(G.strip(m.resolve_rvalue(sd[3]))) if sd[2] == "assign" else None
+                o_l = G.strip(m.resolve_operand(Oop))
+                n_l = G.strip(m.resolve_operand(Nop))
+                if src == posk[0] and isinstance(o_l, tuple) and o_l[0] == "local" and o_l[2] == S and \
+                        isinstance(n_l, tuple) and n_l[0] == "local" and isinstance(n_l[2], int) and m.single_def(n_l[2]):
+                    nsd = m.single_def(n_l[2])
+                    partner = term_str(G.strip(m.resolve_rvalue(nsd[3]))) if nsd[2] == "assign" else None
+                    defb = sd[0]
+                    fwd = m.reach_from(m.succs(defb), stop=(defb,)) | {defb}
+                    back = set()
+                    st_ = [bb]
+                    while st_:
+                        x = st_.pop()
+                        if x in back:
+                            continue
+                        back.add(x)
+                        if x == defb:
+                            continue
+                        st_.extend(m.preds(x))
+                    region = fwd & back
+                    ok_c = partner is not None and nsd[0] == defb
+                    blocks_x, blocks_p = set(), set()
+                    for key, acc in ((posk[0], blocks_x), (partner, blocks_p)):
+                        for bi, s_ in (place_writes(m, key) if key else []):
+                            if bi not in region:
+                                continue
+                            rv = norm(lin(m, m.resolve_rvalue(s_["rv"])))
+                            if rv != {key: 1, "#": 1}:
+                                ok_c = False
+                            guarded = False
+                            for true_t, idxs, cb in cmps:
+                                if _dominated_by_edge(m, true_t, cb, bi):
+                                    ks = sorted(term_str(G.strip(ix)) for _, ix in idxs)
+                                    if ks == sorted([posk[0], partner]):
+                                        guarded = True
+                            if not guarded:
+                                ok_c = False
+                            acc.add(bi)
+                    if ok_c and (len(blocks_x) != len(blocks_p) or not blocks_x):
+                        ok_c = False
+            if ok_c:
+                return "cursor - snapshot, advanced one compared item at a time on both sides"
+        # (d) equated with an affix length by a dominating test
+        lk = term_str(G.strip(m.expand(L, depth=2)))
+        lk2 = term_str(Ls)
+        for sb_, blk in enumerate(m.blocks):
+            sw = blk["term"]
+            if sw["k"] != "switch" or sw.get("discr", {}).get("k") not in ("copy", "move") or sw["values"] not in (["0"], [0]):
+                continue
+            cond = G.strip(m.resolve_operand(sw["discr"]))
+            if not (isinstance(cond, tuple) and cond and cond[0] == "binop" and cond[1] == "Eq"):
+                continue
+            if not _dominated_by_edge(m, sw["otherwise"], sb_, bb):
+                continue
+            for x, y in ((cond[2], cond[3]), (cond[3], cond[2])):
+                if is_affix(fnx, x) and term_str(G.strip(m.expand(y, depth=2))) in (lk, lk2):
+                    return "a dominating `==` equates the length with a common prefix/suffix length"
+        # (e) a parameter of a private helper: every call site must pass a backed value
+        pi = param_index(m, Lop)
+        if pi is not None and depth < 2:
+            oi, ni = param_index(m, Oop), param_index(m, Nop)
+            sites = []
+            for g in prog.user_fns():
+                if not g.mir or g is fnx:
+                    continue
+                for cb, ct in g.mir.calls():
+                    cal = g.mir.callee(ct) or {}
+                    if cal.get("path") == fnx.path and len(ct["args"]) >= pi:
+                        sites.append((g, cb, ct))
+            if sites:
+                whys = []
+                for g, cb, ct in sites:
+                    w = classify(g, cb, ct["args"][pi - 1],
+                                 ct["args"][oi - 1] if oi is not None and oi - 1 < len(ct["args"]) else None,
+                                 ct["args"][ni - 1] if ni is not None and ni - 1 < len(ct["args"]) else None, depth + 1)
+                    if w is None:
+                        return None
+                    whys.append(w)
+                return "helper parameter; every one of its %d call site(s) passes a backed length (%s)" % (len(sites), whys[0])
+        return None
+
     for fn in prog.user_fns():
         if not fn.mir or fn.module not in SCOPE_MODULES:
             continue
         m = fn.mir
-        ems = [(bb, t) for bb, t, meth in emissions(fn) if meth == "equal"]
-        if not ems:
-            continue
-        cmps = _elem_comparisons(m)
-
-        def is_affix(term):
-            e = G.strip(m.expand(term, depth=4))
-            return isinstance(e, tuple) and e and e[0] == "call" and isinstance(e[1], str) and e[1].endswith((PRE, SUF))
-
-        def place_writes(key):
-            """blocks/statements that assign the place whose rendering is `key`"""
-            res = []
-            for bi, b in enumerate(m.blocks):
-                for s_ in b["stmts"]:
-                    if s_["k"] == "assign" and (s_["p"]["proj"] or m.local_name(s_["p"]["l"]) is not None) and \
-                            (m.local_name(s_["p"]["l"]) is not None or s_["p"]["l"] <= m.arg_count) and \
-                            term_str(G.strip(m.resolve_place(s_["p"]))) == key:
-                        res.append((bi, s_))
-            return res
-
-        for bb, t in ems:
-            if len(t["args"]) < 4:
+        for bb, t, meth in emissions(fn):
+            if meth != "equal" or len(t["args"]) < 4:
                 continue
             r.instances += 1
-            L = m.resolve_operand(t["args"][3])
-            opos = m.expand(m.resolve_operand(t["args"][1]), depth=3)
-            npos = m.expand(m.resolve_operand(t["args"][2]), depth=3)
-            why = None
-            Ls = G.strip(L)
-            # (a)
-            if is_affix(L):
-                why = "length is a common prefix/suffix length"
-            # (b)
-            elif isinstance(Ls, tuple) and Ls[0] == "const" and Ls[1] == 1:
-                for true_t, idxs, cb in cmps:
-                    if not _dominated_by_edge(m, true_t, cb, bb):
-                        continue
-                    forms = [norm(lin(m, m.expand(ix, depth=3))) for _, ix in idxs]
-                    if sorted(map(_fmt, forms)) == sorted(map(_fmt, [norm(lin(m, opos)), norm(lin(m, npos))])):
-                        why = "one item under `new[j] == old[i]` of the reported positions"
-                        break
-            else:
-                d = norm(lin(m, L))
-                posk = [k for k, v in d.items() if v == 1]
-                negk = [k for k, v in d.items() if v == -1]
-                # (c) cursor - snapshot
-                if len(d) == 2 and len(posk) == 1 and len(negk) == 1:
-                    snap = [l for l, decl in enumerate(m.locals) if decl.get("name") and term_str(("local", decl["name"], l)) == negk[0] and m.single_def(l)]
-                    ok_c = False
-                    if snap:
-                        S = snap[0]
-                        sd = m.single_def(S)
-                        src = term_str(G.strip(m.resolve_rvalue(sd[3]))) if sd[2] == "assign" else None
-                        # the old position reported must be the snapshot, the new one a snapshot of the partner cursor
-                        o_l = G.strip(m.resolve_operand(t["args"][1]))
-                        n_l = G.strip(m.resolve_operand(t["args"][2]))
-                        if src == posk[0] and isinstance(o_l, tuple) and o_l[0] == "local" and o_l[2] == S and \
-                                isinstance(n_l, tuple) and n_l[0] == "local" and isinstance(n_l[2], int) and m.single_def(n_l[2]):
-                            nsd = m.single_def(n_l[2])
-                            partner = term_str(G.strip(m.resolve_rvalue(nsd[3]))) if nsd[2] == "assign" else None
-                            defb = sd[0]
-                            fwd = m.reach_from(m.succs(defb), stop=(defb,)) | {defb}
-                            back = set()
-                            st_ = [bb]
-                            while st_:
-                                x = st_.pop()
-                                if x in back:
-                                    continue
-                                back.add(x)
-                                if x == defb:
-                                    continue
-                                st_.extend(m.preds(x))
-                            region = fwd & back
-                            ok_c = partner is not None and nsd[0] == defb
-                            blocks_x, blocks_p = set(), set()
-                            for key, acc in ((posk[0], blocks_x), (partner, blocks_p)):
-                                for bi, s_ in place_writes(key) if key else []:
-                                    if bi not in region:
-                                        continue
-                                    rv = norm(lin(m, m.resolve_rvalue(s_["rv"])))
-                                    if rv != {key: 1, "#": 1}:
-                                        ok_c = False
-                                    guarded = False
-                                    for true_t, idxs, cb in cmps:
-                                        if _dominated_by_edge(m, true_t, cb, bi):
-                                            ks = sorted(term_str(G.strip(ix)) for _, ix in idxs)
-                                            if ks == sorted([posk[0], partner]):
-                                                guarded = True
-                                    if not guarded:
-                                        ok_c = False
-                                    acc.add(bi)
-                            # lockstep: both cursors advance in the same guarded regions (same number of times per pass)
-                            if ok_c and len(blocks_x) != len(blocks_p):
-                                ok_c = False
-                            if ok_c and not blocks_x:
-                                ok_c = False
-                    if ok_c:
-                        why = "cursor - snapshot, advanced one compared item at a time on both sides"
-                # (d) equated with an affix length by a dominating test
-                if why is None:
-                    lk = term_str(G.strip(m.expand(L, depth=2)))
-                    lk2 = term_str(G.strip(L))
-                    for sb_, blk in enumerate(m.blocks):
-                        sw = blk["term"]
-                        if sw["k"] != "switch" or sw.get("discr", {}).get("k") not in ("copy", "move") or sw["values"] not in (["0"], [0]):
-                            continue
-                        cond = G.strip(m.resolve_operand(sw["discr"]))
-                        if not (isinstance(cond, tuple) and cond and cond[0] == "binop" and cond[1] == "Eq"):
-                            continue
-                        true_t = sw["otherwise"]
-                        if not _dominated_by_edge(m, true_t, sb_, bb):
-                            continue
-                        a_, b_ = cond[2], cond[3]
-                        for x, y in ((a_, b_), (b_, a_)):
-                            if is_affix(x) and term_str(G.strip(m.expand(y, depth=2))) in (lk, lk2):
-                                why = "a dominating `==` equates the length with a common prefix/suffix length"
-            r.ob(why is not None, "%s: `%s` (line %d): %s" % (fn.path, t.get("src", "equal")[:60], t["line"], why or "length `%s` is not backed by a comparison" % term_str(G.strip(L))[:80]))
+            why = classify(fn, bb, t["args"][3], t["args"][1], t["args"][2])
+            Ls = G.strip(m.resolve_operand(t["args"][3]))
+            r.ob(why is not None, "%s: `%s` (line %d): %s" % (fn.path, t.get("src", "equal")[:60], t["line"], why or "length `%s` is not backed by a comparison" % term_str(Ls)[:80]))
             if why is None:
-                r.find(fn.path, "unbacked-equal:%s" % re.sub(r"_\d+\b", "_", term_str(G.strip(L)))[:60],
+                r.find(fn.path, "unbacked-equal:%s" % re.sub(r"_\d+\b", "_", term_str(Ls))[:60],
                        "`%s` reports %s items as equal, but that length is neither a common prefix/suffix length, nor one "
                        "item under a `new[j] == old[i]` test of the reported positions, nor the distance a cursor pair "
-                       "advanced under such a test: items nobody compared are reported equal" % (
-                           t.get("src", "equal")[:80], term_str(G.strip(L))[:60]), file=fn.file, line=t["line"])
+                       "advanced under such a test (nor a helper parameter every caller fills with one of these): items "
+                       "nobody compared are reported equal" % (
+                           t.get("src", "equal")[:80], term_str(Ls)[:60]), file=fn.file, line=t["line"])
     return r
